@@ -923,15 +923,26 @@ class Index(IndexBase):
         key = key_from_container_key(self, key)
 
         if self._map is None and offset is None: # loc_is_iloc
+            # NOTE: labels are the positions, but a negative integer is not a label: it must not select from the end
             if key.__class__ is np.ndarray:
                 if key.dtype == bool: #type: ignore
                     return key
                 if key.dtype != DTYPE_INT_DEFAULT: #type: ignore
                     # if key is an np.array, it must be an int or bool type
                     # could use tolist(), but we expect all keys to be integers
-                    return key.astype(DTYPE_INT_DEFAULT) #type: ignore
+                    key = key.astype(DTYPE_INT_DEFAULT) #type: ignore
+                if len(key) and key.min() < 0: #type: ignore
+                    raise KeyError(key)
             elif key.__class__ is slice:
+                if ((key.start.__class__ is int and key.start < 0) #type: ignore
+                        or (key.stop.__class__ is int and key.stop < 0)): #type: ignore
+                    raise LocInvalid('Invalid loc given in a slice', key)
                 key = slice_to_inclusive_slice(key) #type: ignore
+            elif isinstance(key, list):
+                if any(k.__class__ is int and k < 0 for k in key):
+                    raise KeyError(key)
+            elif isinstance(key, INT_TYPES) and key < 0: #type: ignore
+                raise KeyError(key)
             return key
 
         if self._map is None and offset is not None: # loc_is_iloc
